@@ -27,6 +27,10 @@ JUDGED = ("dft2", "idft2", "czt2", "iczt2", "ffs", "ufs", "focus", "unfocus")
 def _rq(rng):
     """A real Q > 0."""
     c = rng.random()
+    if c < 0.04:
+        return rng.uniform(0.05, 0.3)
+    if c < 0.08:
+        return rng.uniform(4.0, 16.0)
     if c < 0.25:
         return rng.choice([1, 2, 1.0, 2.0, 0.5, 4, 3])
     if c < 0.5:
@@ -36,6 +40,8 @@ def _rq(rng):
 
 def _rshift1(rng):
     c = rng.random()
+    if c < 0.03:
+        return rng.choice([-1, 1]) * rng.uniform(16, 300)      # far off-axis
     if c < 0.35:
         return 0
     if c < 0.6:
@@ -605,6 +611,13 @@ def _judged(np, ft, pr, op, arrays, prec, step, history, violations, probes, bum
     data32 = a.dtype in (np.float32, np.complex64)
     tol = TOL64 if (prec == 64 and not data32) else TOL32
     shifted = shift[0] != 0 or shift[1] != 0
+    if (abs(shift[0]) > 16 or abs(shift[1]) > 16) and tol != TOL64:
+        # far off-axis at 32 bit: the chirp phase itself (pi*alpha*j^2, j ~ shift)
+        # is no longer representable to the tolerance; not judged
+        bump(probes, "large_shift_32bit_not_judged")
+        return {"out": "skip:large-shift-32bit"}
+    if abs(shift[0]) > 16 or abs(shift[1]) > 16:
+        bump(probes, "large_shift")
 
     # probes
     if m != n:
